@@ -228,4 +228,33 @@ MemLoad(m, off) == MemWordRec(m, off, 0, Zero)
 StoRd(s, k)     == IF k \in DOMAIN s THEN s[k] ELSE Zero
 StoWr(s, k, v)  == [kk \in DOMAIN s \cup {k} |-> IF kk = k THEN v ELSE s[kk]]
 
+---------------------------------------------------------------------------
+(* Gas of the memory and storage opcodes (W = 256).                         *)
+(* Memory (Yellow Paper, C_mem): a frame whose memory is a words long has   *)
+(* paid 3a + floor(a^2 / 512) in total; an access that needs more words     *)
+(* pays the difference to the new total, an access inside the allocated     *)
+(* words pays nothing.  MLOAD / MSTORE touch 32 bytes, MSTORE8 one byte;    *)
+(* each also costs the "very low" 3.                                        *)
+MemTotal(a)        == 3 * a + (a * a) \div 512
+WordsFor(off, len) == (off + len + 31) \div 32
+MemExpand(have, need) == IF need > have THEN MemTotal(need) - MemTotal(have) ELSE 0
+MaxI(a, b) == IF a > b THEN a ELSE b
+MemOpLen(op) == IF op = "MSTORE8" THEN 1 ELSE 32
+MemOpGas(op, have, off) == 3 + MemExpand(have, WordsFor(off, MemOpLen(op)))
+
+(* Storage, Istanbul: SLOAD costs 800 (EIP-1884).  SSTORE is net-metered    *)
+(* (EIP-2200, with SLOAD_GAS = 800, SSTORE_SET_GAS = 20000,                 *)
+(* SSTORE_RESET_GAS = 5000); original = the slot's value before the         *)
+(* transaction, current = its value now, new = the value being stored:      *)
+(*   - current = new (no-op): SLOAD_GAS;                                    *)
+(*   - current # new and original = current (slot not yet changed in this   *)
+(*     transaction): SSTORE_SET_GAS if original = 0, else SSTORE_RESET_GAS; *)
+(*   - current # new and original # current (dirty slot): SLOAD_GAS.        *)
+(* (The rule "fail when gas left <= 2300" never applies to the generated    *)
+(* programs; refunds are not part of the charged cost.)                     *)
+SloadGas == 800
+SstoreGas(original, current, new) ==
+   IF current = new THEN 800
+   ELSE IF original = current THEN (IF original = Zero THEN 20000 ELSE 5000)
+   ELSE 800
 =============================================================================
